@@ -225,15 +225,6 @@ def _plus_arm(ctx, fn):
         ctx.error("mkusetmask('x+y'): how the masks of the named sets are combined is not recognised (rule knows |= in a loop and reduce(or_))", fn)
 
 
-def _enclosing_func(node):
-    n = node
-    while n is not None:
-        if isinstance(n, (ast.FunctionDef, ast.AsyncFunctionDef)):
-            return n.name
-        n = getattr(n, "_vparent", None)
-    return None
-
-
 # ------------------------------------------------------------------------------------------------------------------
 # value helpers shared by the rules below (see c18_sem.py: every function is evaluated on symbols once per regime)
 NONE = F.sym("None")
@@ -801,16 +792,18 @@ def _anymis(p, L):
 
 
 def r3_checked_lookup(ctx):
-    _r3_mkdofpv(ctx)
-    _r3_mat_intersect(ctx)
-    # other sorted-search sites in the anchored modules, listed with their kind
+    bound = set()
+    bound |= _r3_mkdofpv(ctx) or set()
+    bound |= _r3_mat_intersect(ctx) or set()
+    # other sorted-search sites in the anchored modules: every sorter-based look-up must be one the obligations above were bound to
+    # (wherever it sits: in the anchored function or in a helper it calls)
     others = []
     for rel in (N2P, LOCATE):
         m = ctx.src.mod(rel)
         for q, f in m.funcs.items():
             for c in _searchsorted_sites(f):
                 kw = {k.arg for k in c.keywords}
-                if ("sorter" in kw or len(c.args) >= 4 - (dotted(c.func) != "np.searchsorted")) and q.split(".")[0] not in ("mkdofpv", "mat_intersect"):
+                if ("sorter" in kw or len(c.args) >= 4 - (dotted(c.func) != "np.searchsorted")) and id(c) not in bound:
                     others.append(f"{rel}:{c.lineno} {q}")
     ctx.check(not others, "no other sorter-based look-up exists in n2p.py / locate.py without this rule being bound to it",
               N2P + ":1", others)
@@ -828,8 +821,9 @@ def _r3_mkdofpv(ctx):
     fn, paths, reach = _lookup_paths(ctx, N2P, "mkdofpv")
     cache = {}
     looks = {id(p): _analyse_lookup(p, cache) for p in reach}
+    bound = {id(p.sites[0][0]) for p in reach}
     if not _report_lookup(ctx, "mkdofpv", list(looks.values())):
-        return
+        return bound
     strict = F.sym("strict")
     if "strict" not in [a.arg for a in fn.args.args + fn.args.kwonlyargs]:
         raise AnchorError("mkdofpv(..., strict=...)")
@@ -863,7 +857,7 @@ def _r3_mkdofpv(ctx):
     unk = _first(outs, lambda t: t[3] == "unknown")
     if unk is not None:
         ctx.error("mkdofpv: value returned after the look-up not recognised", unk[0].ret_node, {"regime": unk[0].describe(), "returned": _show(unk[0].ret)})
-        return
+        return bound
     # mismatch and strict: must raise
     bad = _first(outs, lambda t: t[4] is not False and t[5] is not False and t[3] != "raise")
     ctx.check(bad is None, "mkdofpv: strict=True raises when a requested DOF is missing", (bad[0].ret_node if bad else None) or fn,
@@ -931,6 +925,7 @@ def _r3_mkdofpv(ctx):
         c = _is_call(D, ("expanddof",), ["dof", "grids_only"]) if D is not None else None
         good = good and bool(c) and same(c.get("dof"), F.sym(par)) and same(c.get("grids_only"), F.sym("grids_only"))
     ctx.check(good, "mkdofpv: the requested keys are built from expanddof(dof, grids_only)", fn, None if good else _show(rows[0][2]))
+    return bound
 
 
 def _key_view(v):
@@ -952,14 +947,15 @@ def _r3_mat_intersect(ctx):
     fn, paths, reach = _lookup_paths(ctx, LOCATE, "mat_intersect")
     cache = {}
     looks = {id(p): _analyse_lookup(p, cache) for p in reach}
+    bound = {id(p.sites[0][0]) for p in reach}
     # the keys that are searched and re-checked are byte views of both inputs in ONE common, lossless type
     same_ok, common_ok, det = True, True, None
     for p in reach:
         L = looks[id(p)]
-        kh, kn = _key_view(L.H), _key_view(L.N)
+        kh, kn = _key_view(L.base), _key_view(L.N)
         if kh is None or kn is None:
             ctx.error("mat_intersect: search keys not recognised as converted views of the inputs", L.node, {"haystack": _show(L.H), "needles": _show(L.N)})
-            return
+            return bound
         (hraw, th), (nraw, tn) = kh, kn
         if not same(th, tn):
             same_ok = False
@@ -972,7 +968,7 @@ def _r3_mat_intersect(ctx):
             good = any((same(c[1][0], a) and same(c[1][1], b)) or (same(c[1][0], b) and same(c[1][1], a)) for a, b in want)
         elif not (c or same(th, F.fn("attr:dtype", hraw)) or same(th, F.fn("attr:dtype", nraw))):
             ctx.error("mat_intersect: common dtype of the search keys not recognised", L.node, _show(th))
-            return
+            return bound
         if not good:
             common_ok = False
             det = det or _show(th)
@@ -981,7 +977,7 @@ def _r3_mat_intersect(ctx):
         ctx.check(common_ok, "mat_intersect: that dtype is np.result_type of both inputs (a conversion that is exact for both; casting the "
                              "needles to the haystack type would make 3.9 match 3 and survive the re-check)", fn, None if common_ok else det)
     if not (same_ok and common_ok):
-        return
+        return bound
     chain = _report_lookup(ctx, "mat_intersect", list(looks.values()))
     d1, d2 = fn.args.args[0].arg, fn.args.args[1].arg
     if chain:
@@ -1001,14 +997,14 @@ def _r3_mat_intersect(ctx):
             r = p.ret
             if not (isinstance(r, tuple) and len(r) == 2):
                 ctx.error("mat_intersect: value returned after the look-up not recognised", p.ret_node, _show(r))
-                return
+                return bound
             kv = _key_view(L.N)
             nraw = kv[0] if kv else L.N
             from_d1 = depends_on_sym(nraw, d1) and not depends_on_sym(nraw, d2)
             from_d2 = depends_on_sym(nraw, d2) and not depends_on_sym(nraw, d1)
             if not (from_d1 or from_d2):
                 ctx.error("mat_intersect: cannot tell which input the requested keys come from", L.node, _show(nraw))
-                return
+                return bound
             # r[0] indexes D1, r[1] indexes D2
             need_sel, hay_pos = (r[0], r[1]) if from_d1 else (r[1], r[0])
             if not sel_index(need_sel, L):
@@ -1046,6 +1042,7 @@ def _r3_mat_intersect(ctx):
     else:
         ctx.check(bad is None, "mat_intersect: the empty result without a search is returned only when the column counts differ", (bad.ret_node if bad else None) or fn,
                   None if bad is None else {"regime": bad.describe(), "returned": _show(bad.ret)})
+    return bound
 
 
 # ------------------------------------------------------------------------------------------------------------------
@@ -1180,24 +1177,122 @@ def r4_expanddof(ctx):
     ctx.check(good and seen == {True, False}, "expanddof: 1-D input expands to components 1..6 (grids_only) or 0..6", fn, det)
 
 
+def r5_index2slice(ctx):
+    """a[index2slice(pv)] == a[pv]: Python reads a negative slice stop from the end, so the exclusive stop last+step of a descending run has
+    to become None exactly when it is negative (stop == 0 is an ordinary stop: element 0 is not selected)"""
+    fn, paths = explore(ctx, LOCATE, "index2slice")
+    pv = F.sym(fn.args.args[0].arg)
+    first, last = F.fn("idx", pv, F.const(0)), F.fn("idx", pv, F.const(-1))
+    steps = [F.fn("idx", F.fn("call:np.diff", pv), F.const(0)), F.fn("idx", pv, F.const(1)) - first]
+    runs, singles = [], []
+    for p in paths:
+        c = split_call(p.ret) if p.returned and not isinstance(p.ret, tuple) else None
+        if c and c[0] == "slice" and not c[2]:
+            if len(c[1]) == 3:
+                runs.append((p, c[1]))
+            elif len(c[1]) == 2:
+                singles.append((p, c[1]))
+    if not runs or not singles:
+        raise AnchorError("index2slice: slice(start, stop, step) / slice(start, stop) returns")
+
+    def on(p, v):
+        """does a test of path p look at the value v"""
+        return [node for c, _, node in p.atoms() if c is not None and contains(c, v)]
+
+    # evenly spaced runs only
+    bad, odd = None, None
+    for p, (a, b, st) in runs:
+        good = same(a, first) and any(same(st, x) for x in steps) and p.decided(F.fn("cmp:Eq", st, F.const(0))) is False
+        reg = None
+        for c, d, _ in p.atoms():
+            x = app(c, "all") if c is not None else None
+            if x and _cmp_pair(x[0], "Eq", F.fn("call:np.diff", pv), st):
+                reg = d
+            x = app(c, "any") if c is not None else None
+            if x and _cmp_pair(x[0], "NotEq", F.fn("call:np.diff", pv), st):
+                reg = not d
+        if not good or reg is False:
+            bad = p
+        elif reg is None:
+            looks = [c for c, _, _ in p.atoms() if c is not None and contains(c, F.fn("call:np.diff", pv)) and not same(c, F.fn("cmp:Eq", *sorted([st, F.const(0)], key=lambda v: repr(vkey(v)))))]
+            understood = [c for c in looks if (app(c, "any") or app(c, "all")) and head((app(c, "any") or app(c, "all"))[0]) in ("cmp:Eq", "cmp:NotEq")]
+            if not looks or understood:
+                bad = p             # no test of the differences, or a test that is not `all equal`
+            else:
+                odd = p
+    if bad is None and odd is not None:
+        ctx.error("index2slice: test for even spacing not recognised", odd.ret_node, odd.describe())
+    else:
+        ctx.check(bad is None, "index2slice: slice(pv[0], stop, step) is returned only for evenly spaced entries (all differences == step != 0)",
+                  (bad.ret_node if bad else None) or fn, None if bad is None else {"regime": bad.describe(), "returned": _show(bad.ret)})
+    # stop of a run: last + step, None exactly when that is negative
+    bad, odd = None, None
+    for p, (a, b, st) in runs:
+        S = last + st
+        neg = p.decided(F.fn("cmp:Gt", F.const(0), S))
+        if neg is None:
+            t = p.decided(F.fn("cmp:Gt", S, F.const(-1)))
+            neg = None if t is None else (not t)
+        if sym_of(b) == "None":
+            good = neg is True
+        elif same(b, S):
+            good = neg is False
+        else:
+            good, neg = False, False
+        if not good:
+            if neg is None and on(p, S) and p.decided(F.fn("cmp:Gt", S, F.const(0))) is None:
+                odd = p
+            else:
+                bad = p
+    if bad is None and odd is not None:
+        ctx.error("index2slice: test on the stop of a run not recognised", odd.ret_node, odd.describe())
+    else:
+        ctx.check(bad is None, "index2slice: the stop of a run is last + step, replaced by None exactly when it is negative (0 stays 0)",
+                  (bad.ret_node if bad else None) or fn, None if bad is None else {"regime": bad.describe(), "returned": _show(bad.ret),
+                                                                                   "consequence": "slice(2, None, -1) also selects element 0 for pv = [2, 1]"})
+    # single entry: slice(i, i + 1), None exactly when i + 1 == 0
+    bad = None
+    for p, (a, b) in singles:
+        z = p.decided(F.fn("cmp:Eq", a + 1, F.const(0)))
+        if z is None:
+            z = p.decided(F.fn("cmp:Eq", a, F.const(-1)))
+        good = same(a, first) and ((sym_of(b) == "None" and z is True) or (same(b, a + 1) and z is False))
+        if not good:
+            bad = p
+    ctx.check(bad is None, "index2slice: a single entry i gives slice(i, i + 1), with stop None exactly when i == -1", (bad.ret_node if bad else None) or fn,
+              None if bad is None else {"regime": bad.describe(), "returned": _show(bad.ret)})
+
+
 RULES = [
     ("C18-R1", r1_lattice, 200),
     ("C18-R1b", r1b_producer, 5),
     ("C18-R2", r2_mksetpv, 6),
-    ("C18-R3", r3_checked_lookup, 16),
+    ("C18-R3", r3_checked_lookup, 23),
     ("C18-R4", r4_expanddof, 4),
+    ("C18-R5", r5_index2slice, 3),
 ]
 LEVEL = "other"
 EXPLANATION = ("Static: the USET bit-mask table is constant-folded from mkusetmask's source and checked against the documented set hierarchy for "
-               "every base/superset pair (disjointness, containment <=> membership, private bits per the NDDL table in the adjacent comment, "
-               "no private bit leaking into an unrelated set) - which decides membership tests for every possible USET word; the producer "
-               "clears the ambiguous S bit; mksetpv's refusal/return shape; the two sorted look-ups clamp and re-check; expanddof's guard.")
+               "every base/superset pair (disjointness, containment <=> membership, private bits per the NDDL table, no private bit leaking into an "
+               "unrelated set) - which decides membership tests for every possible USET word. The other rules evaluate each anchored function on "
+               "symbols once per regime (combination of truth values of its branch tests; private helpers are followed) and decide on the values "
+               "returned / the regimes that raise: the producer clears the ambiguous S bit in place; mksetpv returns pvminor[pvmajor] and refuses in "
+               "every regime with a minor DOF outside major; in mkdofpv and mat_intersect the value of np.searchsorted is followed through the clamp, "
+               "the sorter indirection and the exact re-check to the returned positions (strict raises, non-strict filters positions and DOF with one "
+               "mask, outputs in (D1, D2) order, keys compared in np.result_type of both inputs); expanddof's guards; index2slice's stop/None boundary.")
 MANIFEST = {
     "text": "Partial claim decided statically: the mask table is a consistent encoding of the documented set lattice for every possible USET word "
             "(248 pair obligations), agrees with the NDDL bit table, op2 clears exactly the S bit on s-set DOF, no other module defines a mask; "
-            "mksetpv tests (word & mask) != 0 on both sets, refuses non-contained minors and returns pvminor[pvmajor]; mkdofpv and "
-            "locate.mat_intersect clamp and re-check searchsorted results and filter consistently; expanddof guards components > 6. "
-            "Not decided: the value-level defining equations of the other locate helpers (find_duplicates, index2slice, merge_lists, find_subseq).",
-    "note": "Trusted: CPython ast; the documented Nastran set hierarchy (Quick Reference Guide) embedded in the checker. Numpy semantics of &, !=, boolean indexing, searchsorted.",
-    "technique": "constant folding of the mask table + exhaustive lattice check over all set pairs; def-use pattern rules for the checked look-ups",
+            "mksetpv tests (word & mask) != 0 on both sets, refuses non-contained minors in every regime and returns pvminor[pvmajor]; mkdofpv and "
+            "locate.mat_intersect search with the argsort of the searched keys, clamp and re-check searchsorted results and filter consistently "
+            "(mkdofpv: strict raises, non-strict filters positions and DOF list by the same exact-match mask, table restricted to the requested set, "
+            "keys id*10+component on both sides; mat_intersect: outputs in (D1, D2) order, keys viewed in np.result_type of both inputs, empty result "
+            "without a search only for different column counts); expanddof guards components > 6 and expands ids to 1..6 / 0..6; index2slice turns "
+            "the exclusive stop into None exactly when it is negative. "
+            "Not decided: the value-level defining equations of the other locate helpers (find_duplicates, merge_lists, find_subseq, flippv) and of "
+            "index2slice beyond its stop boundary and even-spacing test.",
+    "note": "Trusted: CPython ast; the documented Nastran set hierarchy (Quick Reference Guide) embedded in the checker. Numpy semantics of &, !=, boolean "
+            "indexing, argsort, searchsorted (left insertion point, result in 0..size), nonzero, result_type, slice.",
+    "technique": "constant folding of the mask table + exhaustive lattice check over all set pairs; value-level evaluation of each anchored function per "
+                 "regime (verifier/c18_sem.py on e2_eval.AutoEvaluator) with def-use followed on values, not on names or source text",
 }
